@@ -60,7 +60,7 @@ def gen_conv(draw):
     t = draw(st.sampled_from(LIN))
     us = cat.units_of(t)
     amt = draw(gen.encode(gen.fractions(), ("int", "dec", "decp", "frac")))
-    prime = draw(st.sampled_from([False, False, True]))
+    prime = draw(st.sampled_from([False, False, True, "bogus"]))
     if draw(st.booleans()):
         return {"k": "pair", "u": draw(st.sampled_from(us)), "v": draw(st.sampled_from(us)), "amt": amt,
                 "prime": prime}
@@ -158,6 +158,19 @@ def run_case(case, ctx):
     Su, Sv = cat.scale(case["u"]), cat.scale(case["v"])
     if u is not v and Su != Sv:
         ctx.nontrivial()
+    if case.get("prime") == "bogus":
+        # a converter registered with a type whose units are scaled from a reference unit is none of the
+        # conversion's business: the scale ratio is exact, the converter only a rule of thumb
+        ctx.label("bogus_converter")
+
+        def bogus(qty, to_unit):
+            return qty.amount * 2 + 1
+        cls0 = u.qty_cls
+        cls0.register_converter(bogus)
+        try:
+            return run_case(dict(case, prime=False), ctx)
+        finally:
+            cls0.remove_converter(bogus)
     if case.get("prime"):
         # conversions must not depend on operations evaluated before
         ctx.label("primed")
